@@ -4,6 +4,7 @@ package c16
 
 import (
 	"math/big"
+	"strings"
 	"testing"
 
 	"github.com/cloudflare/circl/group"
@@ -166,7 +167,11 @@ func TestVerifOPRFTamper(t *testing.T) {
 				"outputs_equal_honest", eqLists(outs, honest))
 			if class == "noncanonical" {
 				d["note"] = "the altered scalar encoding is >= the group order; RFC 9497 DeserializeScalar must fail"
-				lib.Violation(gr.malleableKey("dleq.Verify"), mon, d)
+				key := gr.malleableKey("dleq.Verify")
+				if strings.HasSuffix(component, ".c") && !gr.isRistretto() {
+					key = "C16:malleable-proof:dleq.Verify:challenge-plus-order" // see dleq_test.go
+				}
+				lib.Violation(key, mon, d)
 				return
 			}
 			lib.Violation("C16:tamper-accepted:oprf."+mn+".Finalize:"+component, mon, d)
